@@ -548,7 +548,10 @@ impl Sys {
     }
 
     fn relay_ok(&self) -> bool {
-        !self.run_returned() && !self.q_rx.is_closed() && self.q_rx.len() > 0 && self.stage_tx.is_empty() && self.term_tx.is_empty()
+        // only an idle relay takes the next message: while it is parked forwarding the previous one into a
+        // full inbox the message stays in the queue (handing it over early would leave two select! branches
+        // ready at once when the relay comes back: uncontrolled choice, see N2)
+        !self.run_returned() && !self.q_rx.is_closed() && self.q_rx.len() > 0 && self.stage_tx.is_empty() && self.term_tx.is_empty() && self.relay_parked_in_forward().is_none()
     }
 
     fn exit_began(&self) -> bool {
@@ -556,9 +559,10 @@ impl Sys {
     }
 
     pub fn enabled(&self) -> Vec<Action> {
+        let relay_ok = self.cfg.exact && self.relay_ok(); // (takes the world lock itself)
         let i = self.w.inner.lock().unwrap();
         let mut v = vec![];
-        if self.cfg.exact && self.relay_ok() {
+        if relay_ok {
             v.push(Action::Relay);
         }
         for ((a, slot), p) in i.pumps.iter() {
